@@ -270,7 +270,7 @@ func c06Families(tier string) []explore.Family {
 		N = 6
 	}
 	K := len(c06Alpha)
-	return []explore.Family{c06SemFamily(tier), c06DeepFamily(), c06ClauseScaleFamily(), {Name: fmt.Sprintf("token-sequences<=%d", N), Count: seqCount(K, N), Run: func(i int64, r *explore.Rec) {
+	return []explore.Family{c06SemFamily(tier), c06DeepFamily(), c06ClauseScaleFamily(), c06EnginesFamily(), {Name: fmt.Sprintf("token-sequences<=%d", N), Count: seqCount(K, N), Run: func(i int64, r *explore.Rec) {
 		seq := seqAt(K, i)
 		var sb strings.Builder
 		for k, si := range seq {
@@ -655,6 +655,70 @@ func c06ClauseScaleFamily() explore.Family {
 	}}
 }
 
+// ---- fifth family: block and tag definitions belong to the engine they were registered on. Three engines
+// (A: block boxa + tag taga; B: another boxa, no taga; C: neither) parse the same sources in turn in one
+// process: accept/reject and the rendered text must follow each engine's own grammar.
+func c06EnginesFamily() explore.Family {
+	mk := func(tag string, box, leaf bool) *liquid.Engine {
+		e := liquid.NewEngine()
+		if box {
+			e.RegisterBlock("boxa", func(c render.Context) (string, error) {
+				s, err := c.InnerString()
+				return tag + "[" + s + "]", err
+			})
+		}
+		if leaf {
+			e.RegisterTag("taga", func(c render.Context) (string, error) { return tag + "!", nil })
+		}
+		return e
+	}
+	engines := []struct {
+		tag       string
+		e         *liquid.Engine
+		box, leaf bool
+	}{{"A", mk("A", true, true), true, true}, {"B", mk("B", true, false), true, false}, {"C", mk("C", false, false), false, false}}
+	type src struct {
+		text               string
+		needsBox, needsTag bool
+		render             func(tag string) string
+		never              bool // rejected by every engine
+	}
+	srcs := []src{
+		{"{% boxa %}x{% endboxa %}", true, false, func(t string) string { return t + "[x]" }, false},
+		{"{% taga %}", false, true, func(t string) string { return t + "!" }, false},
+		{"{% boxa %}{% taga %}{% endboxa %}", true, true, func(t string) string { return t + "[" + t + "!]" }, false},
+		{"{% if true %}{% boxa %}y{% endboxa %}{% endif %}z", true, false, func(t string) string { return t + "[y]z" }, false},
+		{"{% boxa %}{% if true %}q{% endif %}{% endboxa %}", true, false, func(t string) string { return t + "[q]" }, false},
+		{"{% for i in (1..2) %}{% taga %}{% endfor %}", false, true, func(t string) string { return t + "!" + t + "!" }, false},
+		{"plain {{ 1 }}", false, false, func(t string) string { return "plain 1" }, false},
+		{"{% endboxa %}", true, false, nil, true},
+		{"{% boxa %}x", true, false, nil, true},
+		{"{% boxa %}{% if true %}{% endboxa %}{% endif %}", true, false, nil, true},
+	}
+	orders := [][]int{{0, 1, 2, 0}, {1, 0, 2, 1}, {2, 1, 0, 2}, {2, 0, 1, 0}}
+	return explore.Family{Name: "grammar-belongs-to-its-engine", Count: int64(len(srcs) * len(orders)), Run: func(i int64, r *explore.Rec) {
+		sc, ord := srcs[int(i)/len(orders)], orders[int(i)%len(orders)]
+		for step, ei := range ord {
+			en := engines[ei]
+			r.Eval()
+			r.Transition()
+			r.Trace()
+			o := Render(en.e, sc.text, map[string]any{})
+			accept := !sc.never && (!sc.needsBox || en.box) && (!sc.needsTag || en.leaf)
+			desc := map[string]any{"template": sc.text, "engine": en.tag, "step": step, "engine_order": fmt.Sprint(ord)}
+			switch {
+			case o.Panic != nil:
+				r.Violation("grammar-crosses-engines:panic", desc, "accepted or rejected", o.String())
+			case accept && (o.Err != nil || o.Out != sc.render(en.tag)):
+				r.Violation("grammar-crosses-engines:own-definition-not-used", desc, sc.render(en.tag), o.String())
+			case !accept && o.Err == nil:
+				r.Violation("grammar-crosses-engines:accepted-without-definition", desc, "rejected: this engine does not define what the template uses (or the template is ill-nested)", o.String())
+			}
+		}
+		r.Class("engines/" + sc.text)
+	}}
+}
+
 func indexOf(xs []string, x string) int {
 	for i, y := range xs {
 		if x == y {
@@ -686,7 +750,7 @@ func init() {
 		ID:    "C06",
 		Level: "model_checking",
 		Rule: "all token sequences of length <=5 (quick) / <=6 (thorough) over the 22-symbol alphabet {text marker, object, plain tag, 8 block openers, else/elsif/when, 8 end tags}, every tag with valid arguments so only structure decides; " +
-			"model = pushdown acceptor with comment/raw modes and the clause table of the Liquid documentation; every sequence is parsed by the real ParseTemplate (no state merging); accepted templates are compared by tree shape (GetRoot) and by rendered markers; second family: every accepted sequence of <=6 (quick) / <=8 (thorough) symbols over an 18-symbol semantic alphabet in which conditions may be false (if false, unless true, empty for, when 2, elsif false), enumerated by a depth-first walk over model-viable prefixes, so that else/elsif/when bodies are the taken paths; third family: nesting depth 1..40 of each block kind and of the alternating pattern, with every single-position edit (end tag dropped, adjacent end tags swapped, end tag of another kind, stray elsif); fourth family: clauses at scale - 5 block shapes with all their clauses (if/elsif/else, unless/else, case/when/else, for/else) nested 1..40 deep with clauses on every level, and holding or following 1..40 closed sibling blocks, conditions all taken / none taken / alternating, compared by tree shape and rendered markers; " +
+			"model = pushdown acceptor with comment/raw modes and the clause table of the Liquid documentation; every sequence is parsed by the real ParseTemplate (no state merging); accepted templates are compared by tree shape (GetRoot) and by rendered markers; second family: every accepted sequence of <=6 (quick) / <=8 (thorough) symbols over an 18-symbol semantic alphabet in which conditions may be false (if false, unless true, empty for, when 2, elsif false), enumerated by a depth-first walk over model-viable prefixes, so that else/elsif/when bodies are the taken paths; third family: nesting depth 1..40 of each block kind and of the alternating pattern, with every single-position edit (end tag dropped, adjacent end tags swapped, end tag of another kind, stray elsif); fourth family: clauses at scale - 5 block shapes with all their clauses (if/elsif/else, unless/else, case/when/else, for/else) nested 1..40 deep with clauses on every level, and holding or following 1..40 closed sibling blocks, conditions all taken / none taken / alternating, compared by tree shape and rendered markers; fifth family: three engines with different registered blocks/tags parse the same sources in turn (definitions must not cross engines); " +
 			"state = PDA configuration (open-block stack, mode) after the sequence; transition/trace = one sequence",
 		Assumptions: []string{
 			"rendering is not compared when a clause follows an else or content stands between case and its first when (order semantics not stated); acceptance and tree shape still are",
